@@ -15,7 +15,7 @@
         is available; free package slots are empty and listed once. *)
 From Coq Require Import List Arith Bool NArith.
 From WacV Require Import Graph GraphInv GraphPrims GraphSteps GraphRemove GraphUnreg GraphTheorems GraphLive GraphAcyclic GraphRank
-  GraphAlias GraphExact GraphFrame GraphQueries.
+  GraphAlias GraphExact GraphFrame GraphQueries GraphDefExport.
 Import ListNotations.
 
 (** 1. The invariant holds initially, is preserved by every operation whatever its outcome, hence holds
@@ -232,6 +232,32 @@ Theorem exports_reflect : forall u s,
   (forall n nd nm, get_node s n = Some nd -> nexport nd = Some nm -> alist_get N.eqb (exports s) nm = Some n).
 Proof. exact exports_reflect. Qed.
 Print Assumptions exports_reflect.
+
+(** a type definition is exported under exactly ONE name, the one its node records (and is encoded with):
+    [export(definition, other_name)] renames the definition. History invariant [DefExp] ([proofs/GraphDefExport.v]):
+    preserved by every operation, hence after every history the entries of the export map that designate a
+    definition are exactly its export name. (Any other node may be exported under several names.) *)
+Theorem step_def_exp : forall u s o, Inv u s -> DefExp s -> DefExp (fst (step u s o)).
+Proof. exact step_def_exp. Qed.
+Print Assumptions step_def_exp.
+
+Theorem definition_export_exact : forall u ops nm n nd,
+  get_node (run u ops) n = Some nd -> nk nd = NDef ->
+  (In (nm, n) (exports (run u ops)) <-> nexport nd = Some nm).
+Proof. exact definition_export_exact. Qed.
+Print Assumptions definition_export_exact.
+
+(** what [export] does to the export map: the new entry is appended; the previous name of a DEFINITION leaves
+    the map ([shift_remove]: the order of the other entries is kept), nothing else changes *)
+Theorem export_map_after : forall u s n e nd,
+  Inv u s -> get_node s n = Some nd -> snd (step u s (Export n e)) = OUnit ->
+  exports (fst (step u s (Export n e))) =
+    match nk nd, nexport nd with
+    | NDef, Some previous => filter (fun p => negb (N.eqb (fst p) previous)) (exports s)
+    | _, _ => exports s
+    end ++ [(e, n)].
+Proof. exact export_map_after. Qed.
+Print Assumptions export_map_after.
 
 (** the arguments of [n]: one per incoming argument edge, the source is live and the index satisfied *)
 Theorem get_args_spec : forall u s n nm src,
